@@ -689,6 +689,16 @@ Definition unmarshal (vr : variant) (cfg : ucfg) (fs : fields) (d : option jv) :
   | _ => Err EDoc
   end.
 
+(* A process serves requests one after the other.  The unmarshaller keeps no state between
+   them (the option / struct caches only memoise pure functions of the type): the result of
+   each request is [unmarshal] of its own document. *)
+Record request := mkReq { rq_cfg : ucfg; rq_type : fields; rq_doc : option jv }.
+
+Definition serve (vr : variant) (r : request) : result gval :=
+  unmarshal vr (rq_cfg r) (rq_type r) (rq_doc r).
+
+Definition run_requests (vr : variant) (rs : list request) : list (result gval) := map (serve vr) rs.
+
 (* ------------------------------------------------------------------ the modelled fragment *)
 
 (* Types the model speaks for: no pointer to slice / map, no []uint8 (base64 path), no
